@@ -74,6 +74,8 @@ func main() {
 		os.Exit(cmdRun(os.Args[2:]))
 	case "selftest":
 		os.Exit(cmdSelftest())
+	case "instrument":
+		os.Exit(cmdInstrument(os.Args[2:]))
 	case "intrinsics":
 		for _, n := range vm.IntrinsicNames() {
 			fmt.Println(n)
@@ -303,6 +305,15 @@ func confirmNatively(bin, harness, replayPath, assertID string, tries int) (bool
 	if strings.HasSuffix(assertID, ".data_race") {
 		return confirmRace(currentModuleDir, harness, replayPath, 300)
 	}
+	if replayUsesG2(replayPath) {
+		// the schedule pre-empts between two synchronisation operations of the
+		// container: replay on the runner built from the instrumented sources
+		g2bin, err := buildG2Binary(currentModuleDir)
+		if err != nil {
+			return false, err.Error()
+		}
+		bin = g2bin
+	}
 	crashOK := strings.HasPrefix(assertID, "ENGINE.uncaught_panic") || strings.HasSuffix(assertID, ".nontermination") || strings.HasPrefix(assertID, "ENGINE.goroutine_panic") || strings.HasSuffix(assertID, ".no_panic")
 	hangOK := strings.HasPrefix(assertID, "ENGINE.deadlock") || strings.HasSuffix(assertID, ".nontermination")
 	last := ""
@@ -334,6 +345,18 @@ func confirmNatively(bin, harness, replayPath, assertID string, tries int) (bool
 		}
 	}
 	return false, last
+}
+
+func replayUsesG2(path string) bool {
+	b, err := os.ReadFile(path)
+	if err != nil {
+		return false
+	}
+	var rf replayFile
+	if json.Unmarshal(b, &rf) != nil {
+		return false
+	}
+	return rf.Params["g2"] > 0
 }
 
 func containsStr(xs []string, x string) bool {
@@ -370,6 +393,7 @@ func cmdRun(args []string) int {
 	xvalN := 0
 	var xsolvers []string
 	module := "harness"
+	confirm := false
 	for _, a := range args[1:] {
 		if strings.HasPrefix(a, "-w=") {
 			workers, _ = strconv.Atoi(a[3:])
@@ -395,6 +419,10 @@ func cmdRun(args []string) int {
 		}
 		if strings.HasPrefix(a, "-mod=") {
 			module = a[5:]
+			continue
+		}
+		if a == "-confirm" {
+			confirm = true
 			continue
 		}
 		if kv := strings.SplitN(a, "=", 2); len(kv) == 2 {
@@ -448,6 +476,24 @@ func cmdRun(args []string) int {
 		if i < 10 {
 			fmt.Printf("FAIL %s %s env=%v findings=%v\n", f.AssertID, f.Msg, f.Env, f.Findings)
 		}
+		if confirm && i < 3 {
+			bin, err := buildReplayBinary(filepath.Join(verifDir(), module))
+			if err != nil {
+				fmt.Fprintln(os.Stderr, err)
+				return 2
+			}
+			h := harnessSpec{Name: name, Module: module}
+			for k, v := range concrete {
+				f.Env["|"+k+"|"] = v
+			}
+			path := writeReplay("DBG", &h, params, f, i)
+			ok, how := confirmNatively(bin, name, path, f.AssertID, 50)
+			fmt.Printf("  native confirmation: %v %s (%s)\n", ok, how, path)
+			os.Remove(bin)
+		}
+	}
+	for _, b := range g2Binaries {
+		os.Remove(b)
 	}
 	for k, f := range st.KnownSample {
 		fmt.Printf("KNOWN %s: %s %s env=%v\n", k, f.AssertID, f.Msg, f.Env)
